@@ -25,7 +25,15 @@ func (m *Mutex) c() chan struct{} {
 
 func (m *Mutex) Lock() {
 	Yield(-2)
-	m.c() <- struct{}{}
+	ch := m.c()
+	select {
+	case ch <- struct{}{}:
+		return
+	default:
+	}
+	t := lockWaitBegin()
+	ch <- struct{}{}
+	lockWaitEnd(t)
 }
 
 func (m *Mutex) Unlock() {
@@ -71,7 +79,9 @@ func (rw *RWMutex) Lock() {
 	w := &rwWaiter{write: true, ch: make(chan struct{})}
 	rw.queue = append(rw.queue, w)
 	rw.mu.Unlock()
+	t := lockWaitBegin()
 	<-w.ch
+	lockWaitEnd(t)
 }
 
 func (rw *RWMutex) Unlock() {
@@ -96,7 +106,9 @@ func (rw *RWMutex) RLock() {
 	w := &rwWaiter{ch: make(chan struct{})}
 	rw.queue = append(rw.queue, w)
 	rw.mu.Unlock()
+	t := lockWaitBegin()
 	<-w.ch
+	lockWaitEnd(t)
 }
 
 func (rw *RWMutex) RUnlock() {
